@@ -31,6 +31,9 @@ static void snapshot_and_check_others(int except, const char *unused)
     (void)unused; (void)except;
 }
 
+/* reference decoding of the heartbeat state byte (CiA 301): 0 boot-up, 4 stopped, 5 operational, 127 pre-operational */
+static CO_MODE ref_decode(uint8_t b) { return (b == 0) ? CO_INIT : (b == 4) ? CO_STOP : (b == 5) ? CO_OPERATIONAL : (b == 127) ? CO_PREOP : CO_INVALID; }
+
 static void check_chain(void)
 {
     CO_HBCONS *h = node.Nmt.HbCons;
@@ -153,7 +156,7 @@ void harness(void)
             CHECK(r == (int16_t)n, "heartbeat of a monitored node consumed");
             CHECK(V1016(hit).Tmr >= 0, "monitor timer (re)armed");
             CHECK(env_hbchange_n == ((CONmtModeDecode(stb) != m[hit].st) ? 1u : 0u), "state-change notification exactly when the state differs");
-            CHECK(CONmtLastHbState(&node.Nmt, n) == CONmtModeDecode(stb), "last state recorded");
+            CHECK(CONmtLastHbState(&node.Nmt, n) == ref_decode(stb), "last state recorded (0 boot-up, 4 stopped, 5 operational, 127 pre-operational)");
         } else {
             CHECK(r < 0 && env_hbchange_n == 0, "heartbeat of an unmonitored node ignored");
         }
